@@ -18,6 +18,10 @@ claimed = {
    "Refinement of the envelope API against a small executable reference model (digest-matches fact, document validity facts, signature list with header snapshots, header rules) over histories: exhaustive enumeration of every operation sequence up to length 3 (quick) / 5 (thorough) over a 14-operation alphabet on two base documents, plus seeded longer histories over 12 base documents of 6 document types with crash-restart, lost-write, re-encoding and damaged-signature-list faults injected between operations. Each step's outcome (ok / error key / signature count) must equal the model's prediction; after every step every entry of the signature list must be a real JWS, or, when the list was damaged on disk, the envelope must be refused by validation and verification without panicking.",
    "Which documents are structurally valid is asked of the implementation on a fresh parse of the same bytes (the property is about how the facts combine over histories). After a signing that fails before appending, 'unchanged' and 'unsigned' are both accepted.",
    "deterministic simulation: exhaustive short histories + seeded long histories with restart faults, refinement against an executable reference model"),
+ "C16": ("exploration", "§5 C16",
+   "Seeded deterministic-simulation runs over every corpus invoice: the source envelope is optionally stamped (with the stamps its regime requires), signed and crash-restarted or re-encoded, the fake clock is placed at a seeded instant (day changes in UTC and in the regime's zone included), then the envelope is corrected (every invoice type × option subsets, Go options and raw JSON) or replicated through the library, cli.Correct/Replicate over a chunked simulated stream, the bulk action (CLI and HTTP) and the cobra command at the same instant. Oracles: source bytes identical after the operation and after every later in-place mutation of the result (and vice versa); result unsigned, unstamped, new identifiers, no code, requested type, exactly one preceding reference with the source's identifier/type/series/code/date plus reason, extensions and required stamps, freshly calculated; refusal exactly as the published data/regimes and data/addons correction definitions demand; replica keeps parties and line inputs and is dated today; all entry points return the same document.",
+   "Refusal is predicted from the published JSON definitions; 'today' may be the UTC or the regime-local date; sources without a code are skipped.",
+   "deterministic simulation: clock/entropy-controlled correct/replicate histories with post-operation mutation (aliasing) and cross-entry-point agreement oracles"),
 }
 na = {
  "C01": "pure function of the document: totals vs exact decimal arithmetic has no schedule, clock, fault or history in it (the only clock input, a missing issue date, enters no total)",
@@ -37,7 +41,6 @@ pending = {
  "C12": "check under construction in this session (will be claimed; see DESIGN.md §5)",
  "C14": "check under construction in this session (will be claimed; see DESIGN.md §5)",
  "C15": "check under construction in this session (will be claimed; see DESIGN.md §5)",
- "C16": "check under construction in this session (will be claimed; see DESIGN.md §5)",
 }
 hooks_commit = "659d564"
 m = {
